@@ -466,7 +466,7 @@ theorem decD_encD_aux (env : Env) (L : EnvLaws env) : ∀ d : Desc,
       rw [ihr (Or.inr hw.2) hn.2 _ r hv]
   | void => intro _ _ v r hv; cases v <;> simp [wt] at hv
   | skipped => intro _ _ v r _; simp [decD, encD, erase]
-  | empty d _ => intro _ _ v r hv; cases v <;> simp [wt] at hv; simp [decD, encD, partialOf, erase]
+  | empty d _ => intro _ _ v r hv; cases v <;> simp [wt] at hv; simp [decD, encD, erase]
   | custom k =>
     intro _ _ v r hv
     simp only [wt] at hv
